@@ -221,9 +221,13 @@ func pppoeCells() []cellSpec {
 	return out
 }
 
-func genPPPoE(s src, c cellSpec) *tcase {
+func genPPPoE(s src, c cellSpec, base *params) *tcase {
 	tc := &tcase{Kind: c.Kind, Path: c.Path, Prefix: c.Prefix, Second: c.Second}
-	genCommon(s, &tc.P)
+	if base != nil {
+		tc.P = *base
+	} else {
+		genCommon(s, &tc.P)
+	}
 	tc.P.QoS, tc.P.NAT, tc.P.Policies = false, false, false // never attached to PPPoE sessions by main.go
 	tc.P.RadiusAuth = false
 	if c.Path == "auth-fail" {
